@@ -54,16 +54,6 @@ theorem hotLive_erase {d : Nat → Bool} {hot : List Nat} (x : Nat) (h : ∀ t, 
     ∀ t, t ∈ hot.erase x → d t = false :=
   fun t ht => h t (List.mem_of_mem_erase ht)
 
-section
-attribute [local simp] TaskState.startScheduling TaskState.finishScheduling TaskState.unschedule
-  TaskState.setCancelled TaskState.finishRunning TaskState.setDropped TaskState.isScheduled
-  TaskState.isCompleted TaskState.isCancelled Word.setFlags Word.clearFlags Word.set Word.get
-theorem compl_unsched (w : Word) : TaskState.isCompleted (TaskState.unschedule w) = TaskState.isCompleted w := by simp
-theorem compl_start (w : Word) : TaskState.isCompleted (TaskState.startScheduling w) = TaskState.isCompleted w := by simp
-theorem compl_finish (w : Word) : TaskState.isCompleted (TaskState.finishScheduling w) = TaskState.isCompleted w := by simp
-theorem compl_cancel (w : Word) : TaskState.isCompleted (TaskState.setCancelled w) = TaskState.isCompleted w := by simp
-theorem compl_dropped (w : Word) : TaskState.isCompleted (TaskState.setDropped w) = TaskState.isCompleted w := by simp
-end
 
 set_option maxRecDepth 4000 in
 theorem g1_rt (s s' : State) (e : RtEv) (h : Inv s) (hs : rtStep s e = some s') :
